@@ -286,7 +286,7 @@ func c03Run(r *run.Runner, c c03Case) {
 func TestC03Methods(t *testing.T) {
 	r := run.Start(t, "C03", "methods")
 	defer r.Finish()
-	methods := []string{"HEAD", "POST", "PUT", "DELETE", "PATCH", "OPTIONS", "PROPFIND", "FOO", "TRACE", "GET+Range", "get"}
+	methods := []string{"HEAD", "POST", "PUT", "DELETE", "PATCH", "OPTIONS", "PROPFIND", "FOO", "TRACE", "GET+Range", "get", "<empty>", "<empty>+Range"}
 	for i, m := range methods {
 		if !r.Mine(i) {
 			continue
@@ -307,6 +307,10 @@ func TestC03Methods(t *testing.T) {
 				spec.Method = "GET"
 				spec.Header = map[string][]string{"Range": {"bytes=0-1"}}
 			}
+			if m == "<empty>+Range" {
+				spec.Method = "<empty>"
+				spec.Header = map[string][]string{"Range": {"bytes=0-1"}}
+			}
 			for k := 0; k < 2; k++ {
 				ex := w.Do(spec)
 				r.AddEvaluations(1)
@@ -315,7 +319,7 @@ func TestC03Methods(t *testing.T) {
 				for _, v := range vs {
 					r.Violation(v.Clause, v.Sig, v.Msg, exSummaries(w))
 				}
-				if !in.FromStore {
+				if !in.FromStore || m == "<empty>" {
 					r.Nontrivial("method:" + m)
 					r.Count("not_from_store", 1)
 				}
